@@ -12,17 +12,21 @@ run_one() {
   if ! git -C "$W" apply "$D/patch.diff"; then echo "$N: patch does not apply" > "$OUT/$N.txt"; git -C /repo worktree remove --force "$W"; return; fi
   export VERIF_REPO="$W" VERIF_EVIDENCE="/tmp/mutrun/ev-$N"
   : > "$OUT/$N.txt"
-  for P in C01 C02 C03 C04 C05 C06 C07 C08 C09 C10 C11 C12 C13 C14 C15 C16 C17 C18 C19; do
+  PROPS="C01 C02 C03 C04 C05 C06 C07 C08 C09 C10 C11 C12 C13 C14 C15 C16 C17 C18 C19"
+  [ -n "$PROPS_OVERRIDE" ] && PROPS="$PROPS_OVERRIDE"
+  [ "$OWN_ONLY" = 1 ] && PROPS="${N%%-*}"        # OWN_ONLY=1: only the property the mutant was written against
+  for P in $PROPS; do
     R=$(cd /verif && ./check $P 2>&1); RC=$?
     RULES=$(echo "$R" | grep -E "^  rule " | sed -E 's/^  rule ([A-Za-z0-9\[\]-]+):.*/\1/' | sort -u | tr '\n' ',')
     echo "$P rc=$RC rules=$RULES" >> "$OUT/$N.txt"
     echo "$R" | grep -E "^(VIOLATION|  rule|  at)" | head -9 > "$OUT/$N.$P.detail"
   done
   H=$(cd /verif && PYTHONPATH=$VERIF_PY python3 -c "from vf.core import tree_hash; print(tree_hash())")
-  rm -rf "/verif/.cache/$H" "/tmp/mutrun/ev-$N"
+  [ -n "$H" ] && rm -rf "/verif/.cache/$H"
+  rm -rf "/tmp/mutrun/ev-$N"
   git -C /repo worktree remove --force "$W"
   echo "done $N"
 }
 export -f run_one
-printf "%s\n" "$@" | xargs -P 6 -I{} bash -c 'run_one {} '"$OUT"
+printf "%s\n" "$@" | xargs -P ${PAR:-6} -I{} bash -c 'run_one {} '"$OUT"
 rm -rf "$SNAP"
